@@ -16,6 +16,7 @@ import (
 	"runtime"
 	"strconv"
 	"strings"
+	"syscall"
 	"testing"
 	"testing/synctest"
 
@@ -102,6 +103,15 @@ func TestSim(t *testing.T) {
 		if plan.Scenario == "corrupt" {
 			// the client's log is an observation point of this scenario (hash failures)
 			logger.SetHandler(logHook{})
+		}
+	}
+	if v := os.Getenv("SIM_MEMLIMIT_MB"); v != "" {
+		// a run must die (and be reported) rather than eat the machine
+		var mb uint64
+		fmt.Sscan(v, &mb)
+		if mb > 0 {
+			lim := syscall.Rlimit{Cur: mb << 20, Max: mb << 20}
+			syscall.Setrlimit(syscall.RLIMIT_AS, &lim)
 		}
 	}
 	var env *worlds.Env
